@@ -53,6 +53,11 @@ def run(ctx):
         cls = '; '.join(str(x[0]) if isinstance(x, (list, tuple)) else str(x) for x in fails[:4])
         ctx.fail('oracle', by_id[cid], impl=impl.get(cid, '')[:600], model=None, expect='everything reachable identical before/after', note=f'C19 violated (stream {st}): {cls}')
     for cid, script, a, b in dis:
+        if 'Clone limit reached' in a and 'Clone limit reached' not in b and ' err ' not in b:
+            # the implementation REFUSES a legal acyclic store that the guard`s own budget (carried by the model) admits: the operation
+            # fails, so nothing is preserved and execution cannot continue — a failing input of the property itself
+            ctx.fail('oracle', by_id[cid], impl=a[:600], model=b[:600], expect='optimize / clone_data succeed on a legal acyclic store', note=f'C19 violated (stream {optgen.stream_of(cid)}): optimize / clone_data answer `Clone limit reached` on an acyclic value graph within the documented budget')
+            continue
         ctx.fail('corr', by_id[cid], impl=a[:600], model=b[:600], expect=b[:300], note='optimize / clone differ from the Lean model cell by cell (OPT / CLONE suite)')
     for cid, script, verdict, f in iso:
         ctx.fail('corr', by_id[cid], impl=impl.get(cid, '')[:300], model=model.get(cid, '')[:300], note=f'verified checker graphIso verdict {verdict} disagrees with the read-back oracle {f[:2]}')
